@@ -3,7 +3,7 @@
    function every theorem of Properties/C03.v is stated on -- for both rounding modes, with and without max_value, for every
    exponent interval and every magnitude.  With quadratic_approximation the exponent is twice an exponent of the interval. *)
 From Coq Require Import ZArith Bool Lia.
-From QV Require Import Base.ZQ Base.FL Quant.Po2.
+From QV Require Import Base.ZQ Base.FL Quant.Po2 Quant.BinTern Quant.BinTernSrc.
 From QVGen Require Import Po2CallGen.
 Open Scope Z_scope.
 
@@ -27,4 +27,17 @@ Proof.
   destruct floor_mode, quad, has_mv; destruct (rlt xabs eps32) eqn:E;
     try (exists mn; split; [lia | reflexivity]);
     match goal with |- context [clip mn mx ?e] => exists (clip mn mx e); split; [apply clip_range; exact H | try reflexivity; lia] end.
+Qed.
+
+(* quantized_po2.__call__: the value is sign * 2^e with the sign of x, zero counted positive -- po2_val of the model *)
+Theorem link_po2_xq e x : req (gen_po2_xq e x) (po2_val (sign1r x, e)) = true.
+Proof.
+  unfold gen_po2_xq, po2_val. cbn [fst snd].
+  change (radd (rsgn x) (rsub (1, 1) (rabs (rsgn x)))) with (bcode_expr false x).
+  pose proof (bcode_expr_is_bcode false x) as B.
+  assert (E : bcode false x = sign1r x) by reflexivity. rewrite E in B.
+  unfold req, rmul in *. cbn [rnum rden fst snd] in *. apply Z.eqb_eq in B. apply Z.eqb_eq.
+  replace (rnum (bcode_expr false x) * rnum (rpow2 e) * (rden (rofZ (sign1r x)) * rden (rpow2 e)))
+    with ((rnum (bcode_expr false x) * rden (rofZ (sign1r x))) * (rnum (rpow2 e) * rden (rpow2 e))) by ring.
+  rewrite B. ring.
 Qed.
